@@ -353,7 +353,18 @@ func (f File) renderJSON() []byte {
 
 // ---------------- generators ----------------
 
-var methodsAny = []string{"GET", "POST", "PUT", "DELETE", "HEAD", "PATCH", "OPTIONS"}
+// the standard methods and extension methods (RFC 9110: any token is a method; WebDAV, cache purging, UPnP) - the
+// formats that spell the method out (raw, http/json) must carry either kind
+var methodsAny = []string{"GET", "POST", "PUT", "DELETE", "HEAD", "PATCH", "OPTIONS", "PURGE", "PROPFIND", "REPORT", "M-SEARCH"}
+
+// ExtensionMethod says whether m is none of net/http's Method* constants.
+func ExtensionMethod(m string) bool {
+	switch m {
+	case "", "GET", "HEAD", "POST", "PUT", "PATCH", "DELETE", "CONNECT", "OPTIONS", "TRACE":
+		return false
+	}
+	return true
+}
 
 const tokAlpha = "abcdefghijklmnopqrstuvwxyzABCDEFGHIJKLMNOPQRSTUVWXYZ0123456789"
 
